@@ -14,8 +14,8 @@ RULE = ("Monitor 1: in every child list of every result, the engine-attached chi
         "context at positive offset with raw hits inside its span'. distinct_nontrivial = distinct cases with a non-empty result.")
 ASSUMPTIONS = ["child lists / searches containing a hit whose decoder snapshot was malformed (C03) are skipped and counted"]
 EXPECTED_WALL = {"quick": 60, "thorough": 500}
-REQUIRED = {"c05_child_lists>=3": 1000, "c05_enclosed_by_decoded_top": 100, "c05_enclosed_by_decoded_nested": 100,
-            "c05_enclosed_by_decoded_inside_context_offset>0": 100, "c05_enclosed_by_context_top": 100, "real_scans": 500}
+REQUIRED = {"c05_child_lists>=3": 125, "c05_enclosed_by_decoded_top": 12, "c05_enclosed_by_decoded_nested": 12,
+            "c05_enclosed_by_decoded_inside_context_offset>0": 12, "c05_enclosed_by_context_top": 12, "real_scans": 62}
 
 
 def plan(tier, seed):
